@@ -49,7 +49,18 @@ class SmoothContract(Contract):
         def cell(*idx):
             t = idx[-1]
             lead = idx[:-1]
-            mean = B.Sum(weff, lambda k: B.rd(V, *(list(lead) + [t - weff + 1 + k]))) / weff
+            def at(k):
+                # positions before the first period only occur in the NaN prefix (masked below):
+                # read position 0 there instead of a negative index
+                pos = t - weff + 1 + k
+                try:
+                    if int(pos) < 0:
+                        pos = 0
+                except Exception:  # symbolic position
+                    pass
+                return B.rd(V, *(list(lead) + [pos]))
+
+            mean = B.Sum(weff, at) / weff
             return B.ite(t < weff - 1, B.NaN(), mean)
 
         B.eq_tensor("smoothed", out, B.spec_tensor(shape, cell))
